@@ -77,7 +77,7 @@ func (a *sideEffectActor) GetInbox(c context.Context, r *http.Request) (vocab.Ac
 func (a *sideEffectActor) AuthorizePostInbox(c context.Context, w http.ResponseWriter, activity Activity) (authorized bool, err error) {
 	authorized = false
 	actor := activity.GetActivityStreamsActor()
-	if actor == nil {
+	if actor == nil || actor.Len() == 0 {
 		err = fmt.Errorf("no actors in post to inbox")
 		return
 	}
